@@ -46,6 +46,12 @@ Plan gen_c08(uint64_t seed, int tier)
         // a size that can never fit (bounded: > capacity; unbounded: > maximum -> QuillError)
         s = fi.max_cap + static_cast<size_t>(r.range(0, 64));
       }
+      else if (fi.reach_cap() < fi.max_cap && r.chance(1, 40))
+      {
+        // larger than the largest buffer the queue can reach, not larger than the configured maximum: cannot be accepted
+        // without allocating beyond the maximum (it is discarded)
+        s = fi.reach_cap() + static_cast<size_t>(r.below(static_cast<uint32_t>(fi.max_cap - fi.reach_cap() - 100)));
+      }
       // sites 0-3: std::string, string_view, C string (length cached in the thread's size cache), named arguments
       ops.push_back(Op{OP_LOG, lg, static_cast<int64_t>(r.below(4)), r.range(3, 8), static_cast<int64_t>(r.next() >> 8), static_cast<int64_t>(s), 0});
     }
@@ -309,6 +315,13 @@ Verdict judge_c08(Plan const& p, History const& h, RunInfoLite const& ri)
     else if (is.result == -2)
     {
       ++threw;
+    }
+    if (encoded_size_of(p, is.id) > fi.reach_cap() && encoded_size_of(p, is.id) <= fi.max_cap && is.result == 1)
+    {
+      return violation("accepted_statement_larger_than_capacity",
+                       "id " + std::to_string(is.id) + " (encoded size " + std::to_string(encoded_size_of(p, is.id)) +
+                         ") was accepted although no buffer within the configured maximum " + std::to_string(fi.max_cap) + " can hold it",
+                       {{"within_configured_maximum", "1"}});
     }
     if (encoded_size_of(p, is.id) > fi.max_cap)
     {
